@@ -1,4 +1,5 @@
 import NiftyVerif.Model.Grid
+import NiftyVerif.Lemmas.Grid
 import Mathlib.Tactic.Ring
 import Mathlib.Tactic.Linarith
 import Mathlib.Data.List.Forall2
@@ -315,5 +316,236 @@ theorem colAt_weightsNest (shape : List Nat) (bases : List (List Nat)) (hb : Row
   have hcl := colProd_length shape.length bases hb
   rw [getD_zipWith_lt (· / ·) shape _ ax hax (by omega) 1 1 1, colProd_getD shape.length bases hb ax hax]
   exact Nat.div_mul_cancel hdvd
+
+
+theorem unhorner_length (rs : List Nat) (j : Nat) : (unhorner rs j).length = rs.length := by
+  induction rs generalizing j with
+  | nil => simp [unhorner]
+  | cons r rs ih => rw [unhorner_cons]; simp [ih]
+
+theorem unhorner_lt (rs : List Nat) (j : Nat) (hpos : ∀ r ∈ rs, 0 < r) : List.Forall₂ (· < ·) (unhorner rs j) rs := by
+  induction rs generalizing j with
+  | nil => simp [unhorner]
+  | cons r rs ih =>
+    rw [unhorner_cons]
+    exact List.Forall₂.cons (Nat.mod_lt _ (hpos r List.mem_cons_self)) (ih j (fun x hx => hpos x (List.mem_cons_of_mem _ hx)))
+
+theorem horner_unhorner (rs : List Nat) (j : Nat) (hpos : ∀ r ∈ rs, 0 < r) (hj : j < rs.prod) : horner rs (unhorner rs j) = j := by
+  induction rs generalizing j with
+  | nil => simp [horner, unhorner] at hj ⊢; omega
+  | cons r rs ih =>
+    have hr := hpos r List.mem_cons_self
+    have hpos' : ∀ x ∈ rs, 0 < x := fun x hx => hpos x (List.mem_cons_of_mem _ hx)
+    have hp : 0 < rs.prod := by
+      clear ih hj
+      induction rs with
+      | nil => simp
+      | cons a as iha => rw [List.prod_cons]; exact Nat.mul_pos (hpos' a List.mem_cons_self) (iha (fun x hx => hpos x (by simp at hx ⊢; tauto)) (fun x hx => hpos' x (List.mem_cons_of_mem _ hx)))
+    rw [unhorner_cons, horner_cons r _ rs _ (unhorner_length rs j).symm]
+    rw [List.prod_cons] at hj
+    have hq : j / rs.prod < r := by
+      apply Nat.div_lt_of_lt_mul; rw [Nat.mul_comm]; exact hj
+    rw [Nat.mod_eq_of_lt hq]
+    -- unhorner rs j = unhorner rs (j % rs.prod)
+    have hmod : unhorner rs j = unhorner rs (j % rs.prod) := by
+      have e : j = (j / rs.prod) * rs.prod + j % rs.prod := by
+        have := Nat.div_add_mod j rs.prod; rw [Nat.mul_comm] at this; omega
+      conv_lhs => rw [e]
+      -- reuse the periodicity shown inside unhorner_horner
+      have hper : ∀ (l : List Nat) (x y : Nat), unhorner l (x * l.prod + y) = unhorner l y := by
+        intro l
+        induction l with
+        | nil => intro x y; simp [unhorner]
+        | cons a as iha =>
+          intro x y
+          rw [unhorner_cons, unhorner_cons, List.prod_cons]
+          have e : x * (a * as.prod) + y = (x * a) * as.prod + y := by ring
+          rw [e, iha (x * a) y]
+          congr 1
+          by_cases hz : as.prod = 0
+          · simp [hz]
+          · have hp : 0 < as.prod := Nat.pos_of_ne_zero hz
+            rw [Nat.add_comm, Nat.add_mul_div_right _ _ hp, Nat.add_mod, Nat.mul_mod_left, Nat.add_zero, Nat.mod_mod]
+      exact hper rs _ _
+    rw [hmod, ih (j % rs.prod) hpos' (Nat.mod_lt _ hp)]
+    have := Nat.div_add_mod j rs.prod
+    rw [Nat.mul_comm] at this
+    exact this
+
+
+
+theorem colAt_pos (ax : Nat) (rows : List (List Nat)) (hp : PosRows rows) (hr : ∀ r ∈ rows, ax < r.length) : 0 < colAt ax rows := by
+  unfold colAt
+  apply list_prod_pos
+  intro x hx
+  rw [List.mem_map] at hx
+  obtain ⟨r, hr', rfl⟩ := hx
+  have hl := hr r hr'
+  rw [List.getD_eq_getElem?_getD, List.getElem?_eq_getElem hl]
+  exact hp r hr' _ (List.getElem_mem hl)
+
+theorem PP_cons (ww : List Nat) (bf : List (List Nat)) : PP (ww :: bf) = ww.prod * PP bf := by simp [PP]
+
+theorem unravel_spec (ndim : Nat) (bf post : List (List Nat)) (fid : Nat) (acc : List Nat)
+    (hr : Rows ndim (bf ++ post)) (hpb : PosRows bf) (hpp : PosRows post) (hacc : acc.length = ndim)
+    (hlow : ∀ ax, ax < ndim → acc.getD ax 0 < colAt ax post) :
+    (unravelNestGo ndim bf post fid acc).length = ndim ∧
+    (∀ ax, ax < ndim → (unravelNestGo ndim bf post fid acc).getD ax 0 % colAt ax post = acc.getD ax 0 ∧
+        (unravelNestGo ndim bf post fid acc).getD ax 0 < colAt ax bf * colAt ax post) ∧
+    Wb ndim (unravelNestGo ndim bf post fid acc) bf post = fid % PP bf := by
+  induction bf generalizing post fid acc with
+  | nil =>
+    refine ⟨by simpa [unravelNestGo] using hacc, ?_, by simp [unravelNestGo, Wb, PP, Nat.mod_one]⟩
+    intro ax hax
+    simp only [unravelNestGo]
+    have := hlow ax hax
+    exact ⟨Nat.mod_eq_of_lt this, by simpa [colAt] using this⟩
+  | cons ww bf ih =>
+    have hww : ww.length = ndim := hr ww (by simp)
+    have hpost : Rows ndim post := fun r hr' => hr r (by simp [hr'])
+    have hcl := colProd_length ndim post hpost
+    have hwpos : ∀ w ∈ ww, 0 < w := hpb ww List.mem_cons_self
+    have hprodpos : 0 < ww.prod := list_prod_pos hwpos
+    simp only [unravelNestGo]
+    set ds := unhorner ww (fid % ww.prod) with hds
+    have hdl : ds.length = ndim := by rw [hds, unhorner_length, hww]
+    have hdlt := unhorner_lt ww (fid % ww.prod) hwpos
+    set acc' := List.zipWith (· + ·) acc (List.zipWith (· * ·) (colProd ndim post) ds) with hacc'
+    have hacc'l : acc'.length = ndim := by rw [hacc', List.length_zipWith, List.length_zipWith, hacc, hcl, hdl]; omega
+    have hacc'v : ∀ ax, ax < ndim → acc'.getD ax 0 = acc.getD ax 0 + colAt ax post * ds.getD ax 0 := by
+      intro ax hax
+      rw [hacc', getD_zipWith_lt (· + ·) _ _ ax (by omega) (by rw [List.length_zipWith, hcl, hdl]; omega) 0 0 0,
+        getD_zipWith_lt (· * ·) _ _ ax (by omega) (by rw [hdl]; exact hax) 0 1 0, colProd_getD ndim post hpost ax hax]
+    have hdsv : ∀ ax, ax < ndim → ds.getD ax 0 < ww.getD ax 1 := by
+      intro ax hax
+      have := List.Forall₂.get hdlt (i := ax) (by rw [unhorner_length, hww]; exact hax) (by rw [hww]; exact hax)
+      simpa [List.getD_eq_getElem?_getD, List.getElem?_eq_getElem, hdl, hww, hax] using this
+    have hlow' : ∀ ax, ax < ndim → acc'.getD ax 0 < colAt ax (ww :: post) := by
+      intro ax hax
+      rw [hacc'v ax hax, colAt_cons]
+      have h1 := hlow ax hax
+      have h2 := hdsv ax hax
+      calc acc.getD ax 0 + colAt ax post * ds.getD ax 0 < colAt ax post + colAt ax post * ds.getD ax 0 := by omega
+        _ = colAt ax post * (ds.getD ax 0 + 1) := by ring
+        _ ≤ colAt ax post * ww.getD ax 1 := Nat.mul_le_mul_left _ h2
+        _ = ww.getD ax 1 * colAt ax post := Nat.mul_comm _ _
+    have hr' : Rows ndim (bf ++ ww :: post) := by
+      intro r hr''; exact hr r (by simp only [List.mem_append, List.mem_cons] at hr'' ⊢; tauto)
+    have hpp' : PosRows (ww :: post) := by
+      intro r hr''
+      rcases List.mem_cons.mp hr'' with rfl | h
+      · exact hwpos
+      · exact hpp r h
+    obtain ⟨l1, l2, l3⟩ := ih (ww :: post) (fid / ww.prod) acc' hr' (fun r h => hpb r (List.mem_cons_of_mem _ h)) hpp' hacc'l hlow'
+    set idx := unravelNestGo ndim bf (ww :: post) (fid / ww.prod) acc' with hidx
+    refine ⟨l1, ?_, ?_⟩
+    · intro ax hax
+      obtain ⟨m1, m2⟩ := l2 ax hax
+      rw [colAt_cons] at m1 m2
+      rw [hacc'v ax hax] at m1
+      have hS := hlow ax hax
+      constructor
+      · have := Nat.mod_mul_right_mod (idx.getD ax 0) (colAt ax post) (ww.getD ax 1)
+        rw [Nat.mul_comm] at this
+        rw [← this, m1, Nat.add_mul_mod_self_left, Nat.mod_eq_of_lt hS]
+      · rw [colAt_cons]
+        calc idx.getD ax 0 < colAt ax bf * (ww.getD ax 1 * colAt ax post) := m2
+          _ = ww.getD ax 1 * colAt ax bf * colAt ax post := by ring
+    · -- the digits of the assembled index at this level are `ds`
+      have hdig : digitsV idx (colProd ndim post) ww = ds := by
+        apply list_ext_getD _ _ ndim (digitsV_length idx _ ww ndim l1 hcl hww) hdl
+        intro ax hax
+        rw [digitsV_getD idx _ ww ax (by omega) (by omega) (by omega), colProd_getD ndim post hpost ax hax]
+        obtain ⟨m1, _⟩ := l2 ax hax
+        rw [colAt_cons, hacc'v ax hax] at m1
+        have hS := hlow ax hax
+        have hSpos : 0 < colAt ax post := by omega
+        have e := Nat.mod_mul_right_div_self (idx.getD ax 0) (colAt ax post) (ww.getD ax 1)
+        rw [← e, Nat.mul_comm (colAt ax post), m1, Nat.add_comm, Nat.mul_comm, Nat.add_comm, Nat.add_mul_div_right _ _ hSpos,
+          Nat.div_eq_of_lt hS, Nat.zero_add]
+      simp only [Wb]
+      rw [hdig, l3, hds, horner_unhorner ww _ hwpos (Nat.mod_lt _ hprodpos), PP_cons, Nat.mod_mul, Nat.mul_comm ww.prod]
+      ring
+
+
+theorem PP_reverse (rows : List (List Nat)) : PP rows.reverse = PP rows := by
+  simp [PP, List.map_reverse, List.prod_reverse]
+
+/-- **flat_roundtrip_nest_inv** on the weight rows: `index2flatindex(flatindex2index(f)) = f` for every `f < size`, and the
+    index vector returned lies on the level -/
+theorem nest_roundtrip_inv_rows (ndim : Nat) (rows : List (List Nat)) (f : Nat) (hr : Rows ndim rows) (hp : PosRows rows)
+    (hf : f < PP rows) :
+    ravelNestGo ndim (unravelNestGo ndim rows.reverse [] f (List.replicate ndim 0)) rows 0 = f ∧
+    (unravelNestGo ndim rows.reverse [] f (List.replicate ndim 0)).length = ndim ∧
+    ∀ ax, ax < ndim → (unravelNestGo ndim rows.reverse [] f (List.replicate ndim 0)).getD ax 0 < colAt ax rows := by
+  have hr' : Rows ndim (rows.reverse ++ []) := by
+    intro r hr''; exact hr r (by simpa using hr'')
+  have hp' : PosRows rows.reverse := fun r hr'' => hp r (by simpa using hr'')
+  obtain ⟨l1, l2, l3⟩ := unravel_spec ndim rows.reverse [] f (List.replicate ndim 0) hr' hp'
+    (by intro r hr''; simp at hr'') (by simp)
+    (by intro ax hax; simp [colAt, List.getD_eq_getElem?_getD, hax])
+  refine ⟨?_, l1, ?_⟩
+  · have e := ravelNestGo_rev ndim (unravelNestGo ndim rows.reverse [] f (List.replicate ndim 0)) rows.reverse [] 0
+    simp only [List.reverse_reverse, List.append_nil, Nat.zero_mul, Nat.zero_add, ravelNestGo] at e
+    rw [e, l3, PP_reverse, Nat.mod_eq_of_lt hf]
+  · intro ax hax
+    have := (l2 ax hax).2
+    rw [colAt_reverse] at this
+    simpa [colAt] using this
+
+
+theorem colAt_append (ax : Nat) (a b : List (List Nat)) : colAt ax (a ++ b) = colAt ax a * colAt ax b := by
+  simp [colAt, List.map_append, List.prod_append]
+
+theorem Wb_div (ndim : Nat) (idx sl : List Nat) (hidx : idx.length = ndim) (hsl : sl.length = ndim)
+    (bf post : List (List Nat)) (hr : Rows ndim (bf ++ post)) :
+    Wb ndim idx bf (post ++ [sl]) = Wb ndim (List.zipWith (· / ·) idx sl) bf post := by
+  induction bf generalizing post with
+  | nil => simp [Wb]
+  | cons ww bf ih =>
+    have hww : ww.length = ndim := hr ww (by simp)
+    have hpost : Rows ndim post := fun r hr' => hr r (by simp [hr'])
+    have hpost' : Rows ndim (post ++ [sl]) := by
+      intro r hr'
+      rcases List.mem_append.mp hr' with h | h
+      · exact hpost r h
+      · simp at h; rw [h]; exact hsl
+    simp only [Wb]
+    have e := ih (ww :: post) (by intro r hr'; exact hr r (by simp only [List.mem_append, List.mem_cons] at hr' ⊢; tauto))
+    rw [List.cons_append] at e
+    rw [e]
+    congr 2
+    have hd : (List.zipWith (· / ·) idx sl).length = ndim := by simp [hidx, hsl]
+    apply list_ext_getD _ _ ndim
+      (digitsV_length idx _ ww ndim hidx (colProd_length ndim _ hpost') hww)
+      (digitsV_length _ _ ww ndim hd (colProd_length ndim _ hpost) hww)
+    intro ax hax
+    rw [digitsV_getD idx _ ww ax (by omega) (by rw [colProd_length ndim _ hpost']; exact hax) (by omega),
+      digitsV_getD _ _ ww ax (by omega) (by rw [colProd_length ndim _ hpost]; exact hax) (by omega),
+      colProd_getD ndim _ hpost' ax hax, colProd_getD ndim _ hpost ax hax, colAt_append,
+      getD_zipWith_lt (· / ·) idx sl ax (by omega) (by omega) 0 0 1]
+    have : colAt ax [sl] = sl.getD ax 1 := by simp [colAt]
+    rw [this, Nat.div_div_eq_div_mul, Nat.mul_comm]
+
+/-- **children are contiguous in nest order**: the flat index of the parent is the child's flat index divided by the
+    number of children `prod(parent_splits)`; equivalently the children of flat parent `p` are exactly the flat indices
+    `p * prod(splits) .. (p+1) * prod(splits) - 1` (this is what `FlatGridAtLevel.resort` relies on for the nest ordering) -/
+theorem nest_parent_is_div_rows (ndim : Nat) (R : List (List Nat)) (sl idx : List Nat) (hidx : idx.length = ndim)
+    (hsl : sl.length = ndim) (hr : Rows ndim R) (hpos : ∀ w ∈ sl, 0 < w) :
+    ravelNestGo ndim idx (R ++ [sl]) 0 / sl.prod = ravelNestGo ndim (List.zipWith (· / ·) idx sl) R 0 := by
+  have e1 := ravelNestGo_rev ndim idx (R ++ [sl]).reverse [] 0
+  simp only [List.reverse_reverse, List.append_nil, Nat.zero_mul, Nat.zero_add, ravelNestGo] at e1
+  have e2 := ravelNestGo_rev ndim (List.zipWith (· / ·) idx sl) R.reverse [] 0
+  simp only [List.reverse_reverse, List.append_nil, Nat.zero_mul, Nat.zero_add, ravelNestGo] at e2
+  rw [e1, e2, List.reverse_append, List.reverse_singleton, List.singleton_append]
+  simp only [Wb]
+  have hcl : (colProd ndim []).length = ndim := by simp [colProd]
+  have hlt := digitsV_lt idx (colProd ndim []) sl (by omega) (by omega) hpos
+  have hh := horner_lt hlt
+  have hp : 0 < sl.prod := by omega
+  rw [Nat.add_comm, Nat.add_mul_div_right _ _ hp, Nat.div_eq_of_lt hh, Nat.zero_add]
+  have := Wb_div ndim idx sl hidx hsl R.reverse [] (by intro r hr'; exact hr r (by simpa using hr'))
+  simpa using this
+
 
 end NiftyVerif.Grid
